@@ -14,6 +14,21 @@ PROG = None; SEED = 0
 EXPRS = ['a', 'a.b', 'a[0]', 'a[*].b', 'a[]', 'a[?b]', 'a[1:]', '*', 'a || b', 'a == b', '[a, b]', '{x: a}', 'length(a)', 'sort(a)', 'sort_by(a, &b)', 'max_by(a, &b)', 'map(&b, a)', 'abs(a)', 'keys(@)', 'to_number(a)',
          'a[*].b | [0]', 'not_null(a, b)', 'nosuch(a)', 'a[::0]', 'avg(a)', 'merge(@, @)', 'reverse(a)', 'join(`","`, a)', 'contains(a, b)', 'type(a)']
 
+def ast_offsets(prog, node):
+    """the offset fields of a tree, in traversal order (canon() erases them)"""
+    node = MM.deref_all(node); out = []
+    def walk(v):
+        v = MM.deref_all(v)
+        if isinstance(v, Agg):
+            if v.ty == 'Ast':
+                try: out.append(PJ.ast_field(prog, v, 'offset').concrete())
+                except Exception: pass
+            for c in v.fields: walk(c.v)
+        elif isinstance(v, VecV):
+            for c in v.items: walk(c.v)
+    walk(node)
+    return out
+
 def freeze(v):
     v = MM.deref_all(v)
     if isinstance(v, Agg):
@@ -55,10 +70,15 @@ def job_seq(item):
         freeze(d1)                                   # everything materialised so far is now read-only
         # intervening history: another compilation and search (possibly failing midway), on a different document
         c2 = ex.call('compile', [Ptr(Cell(rstr(e2)))])
+        # the outcome of compile() for e2 is the outcome of parsing e2 itself (parse is the stateless reference), whatever was compiled before
+        p2 = ex.call('parse', [Ptr(Cell(rstr(e2)))])
+        if c2.variant != p2.variant: return f'compile() after other compilations is {c2.variant} where the stateless parse is {p2.variant}: not the parse of its argument'
+        if c2.variant == 'Err':
+            if XP.reason_kind(c2.fields[0].v) != XP.reason_kind(p2.fields[0].v) or XP.err_field(c2.fields[0].v, 'offset').concrete() != XP.err_field(p2.fields[0].v, 'offset').concrete():
+                return 'compile() after other compilations fails differently from the stateless parse: not the parse of its argument'
         if c2.variant == 'Ok':
-            # the tree compile() hands out for e2 is the tree of e2 itself (parse is the stateless reference), whatever was compiled before
-            p2 = ex.call('parse', [Ptr(Cell(rstr(e2)))])
-            if p2.variant != 'Ok' or PJ.canon(prog, ex.call('Expression::as_ast', [Ptr(Cell(c2.fields[0].v))]), {}) != PJ.canon(prog, p2.fields[0].v, {}): return 'compile() after other compilations yields a tree that is not the parse of its argument'
+            a2 = ex.call('Expression::as_ast', [Ptr(Cell(c2.fields[0].v))])
+            if PJ.canon(prog, a2, {}) != PJ.canon(prog, p2.fields[0].v, {}) or ast_offsets(prog, a2) != ast_offsets(prog, p2.fields[0].v): return 'compile() after other compilations yields a tree that is not the parse of its argument'
             d2 = SY.sym_variable(ex, SY.DocSpec(depth=1, A=2, keys=('a', 'b'), strs=('', 'a'), nums=[0, 1])); ex.doc2 = d2
             r2 = search(ex, c2.fields[0].v, SY.rc(d2))
         # compiling the same string again yields the same tree
@@ -87,7 +107,7 @@ def job_seq(item):
         if r[0] == 'unsupported': S.inconclusive(f'sequence ({e1!r},{e2!r}): ' + XP.short_unsupported(r[1])); return
         acc = []; SY.lazy_null_constraints(ex.doc, acc)
         if hasattr(ex, 'doc2'): SY.lazy_null_constraints(ex.doc2, acc)
-        sat, m = eng.check(ex.pc + acc)
+        sat, m = SY.check_pinned(eng, ex.pc, acc)
         if not sat: return
         d1 = SY.tagged(ex, ex.doc, m); d2 = SY.tagged(ex, ex.doc2, m) if hasattr(ex, 'doc2') else None
         req = {'op': 'seq', 'reqs': [{'op': 'search_default', 'expr': e1, 'doc': d1}, {'op': 'search_default', 'expr': e2, 'doc': d2}, {'op': 'search_default', 'expr': e1, 'doc': d1}]}
@@ -131,7 +151,7 @@ def job_variant(item):
             if r[0] == 'ok': S['vacuity']['variant agrees'] = True
             return
         acc = []; SY.lazy_null_constraints(ex.doc, acc)
-        sat, m = eng.check(ex.pc + acc)
+        sat, m = SY.check_pinned(eng, ex.pc, acc)
         if not sat: return
         d1 = SY.tagged(ex, ex.doc, m); dv = SY.tagged(ex, ex.u_dv, m)
         S.cand('c13:reuse-differs', f'{e1}: a re-used expression on a loosely-equal document: {r[1]}', {'e1': e1, 'd1': d1, 'dv': dv},
@@ -141,8 +161,50 @@ def job_variant(item):
     S.absorb_engine(eng)
     return S
 
+def job_reuse(item):
+    """one compiled expression (and a clone taken after its first use) searched on document A and then on an INDEPENDENT document B behaves on B like a freshly
+    compiled expression -- whatever A was (null and falsy roots included)"""
+    e1, deadline = item
+    prog = PROG; eng = Engine(prog); eng.deadline = deadline; S = Summary(); XP.init_decls(prog)
+    spec = SY.DocSpec(depth=1, A=2, keys=('a', 'b'), strs=('', 'a'), nums=[0, 1])
+    def body(ex):
+        c1 = ex.call('compile', [Ptr(Cell(rstr(e1)))])
+        if c1.variant != 'Ok': raise Unsupported('harness expression does not compile: ' + e1)
+        x1 = c1.fields[0].v
+        dA = SY.sym_variable(ex, spec); ex.doc = dA
+        dB = SY.sym_variable(ex, spec); ex.doc2 = dB
+        ex.call('Expression::search', [Ptr(Cell(x1)), SY.rc(dA)])
+        x1c = ex.call('<Expression as Clone>::clone', [Ptr(Cell(x1))]) if prog.resolve('<Expression as Clone>::clone') else x1
+        used = ex.call('Expression::search', [Ptr(Cell(x1)), SY.rc(dB)])
+        usedc = ex.call('Expression::search', [Ptr(Cell(x1c)), SY.rc(dB)])
+        fresh = ex.call('Expression::search', [Ptr(Cell(ex.call('compile', [Ptr(Cell(rstr(e1)))]).fields[0].v)), SY.rc(dB)])
+        for nm, u in (('re-used expression', used), ('clone of a used expression', usedc)):
+            if u.variant != fresh.variant: return f'{nm}: outcome class differs from a fresh expression'
+            if u.variant == 'Ok':
+                d = ER.same(ex, u.fields[0].v, fresh.fields[0].v)
+                if d: return f'{nm}: {d}'
+        return None
+    def on_path(ex, r):
+        S['paths'] += 1; S['outcomes'][r[0]] += 1
+        if r[0] == 'unsupported': S.inconclusive(f'reuse {e1!r}: ' + XP.short_unsupported(r[1])); return
+        if r[0] != 'ok' or r[1] is None:
+            if r[0] == 'ok': S['vacuity']['reuse agrees'] = True
+            return
+        acc = []; SY.lazy_null_constraints(ex.doc, acc); SY.lazy_null_constraints(ex.doc2, acc)
+        sat, m = SY.check_pinned(eng, ex.pc, acc)
+        if not sat: return
+        dA = SY.tagged(ex, ex.doc, m); dB = SY.tagged(ex, ex.doc2, m)
+        S.cand('c13:reuse-differs', f'{e1}: searched on one document and then on another: {r[1]}', {'e1': e1, 'd1': dA, 'dv': dB},
+               {'op': 'reuse', 'expr': e1, 'docs': [dA, dB]}, expected='same as a fresh expression')
+    n, rest = eng.explore(body, on_path, max_paths=3000)
+    if rest: S.inconclusive(f'reuse {e1!r}: cap/deadline after {n} paths')
+    S.absorb_engine(eng)
+    return S
+
+REUSE = ['[`1`, `2`]', '{a: `1`}', '`1`', "'x'", 'a', '[a, b]', '@', 'length(@)', 'a || `1`', '[?a]', '*', 'a == b', '!@', 'type(@)', '[0]', '[::-1]', 'not_null(a, b)', '{x: a, y: @}']
+
 def task(item):
-    return job_variant(item[1:]) if item[0] == 'variant' else job_seq(item[1:])
+    return {'variant': job_variant, 'reuse': job_reuse}.get(item[0], job_seq)(item[1:])
 
 def confirm(c, nd, nr):
     if c['key'] == 'c13:reuse-differs':
@@ -177,11 +239,15 @@ def run(run):
     # intervening calls: failing at the call, failing in the SECOND argument after the first was evaluated, failing inside an expression reference, succeeding
     e2s = ['nosuch(a)', 'not_null(a, abs(b))', 'sort_by(a, &abs(@))', 'a[::0]', 'a[*].b', 'contains(a, nosuch(b))', "a == 'x  y'", 'a || b'] if quick else ['nosuch(a)', 'not_null(a, abs(b))', 'sort_by(a, &abs(@))', 'a[::0]', 'a[*].b', 'contains(a, nosuch(b))', 'abs(a)', 'max_by(a, &b)', 'map(&b, a)', '[a b', 'a.b', 'merge(@, abs(a))', "a == 'x  y'", 'a || b', "a == 'x y'"]
     jobs = [('seq', e1, e2, 1 if '==' in e1 or 'contains' in e1 else 2, dl) for e1 in e1s for e2 in e2s]
+    # the same text with different surrounding whitespace / a no-break space (not JMESPath whitespace): compile() must still be the parse of ITS argument
+    ws = [e1s[i % len(e1s)] for i in range(run.seed, run.seed + (3 if quick else len(e1s)))] + ['a.b']
+    jobs += [('seq', e1, v, 1, dl) for e1 in dict.fromkeys(ws) for v in (' ' + e1, e1 + ' ', '\u00a0' + e1, '\n  ' + e1 + '\n')]
+    jobs += [('reuse', e, dl) for e in (REUSE[:10] if quick else REUSE)]
     jobs += [('variant', e, 1 if '==' in e else 2, dl) for e in (['a', 'a[0]', 'to_string(a)', 'a[*].b', '@', 'type(a)', '[a, b]', 'a || b'] if quick else EXPRS)]
     run.bounds = {'call sequences': f'compile(e1); search(d1); compile(e2); search(d2) [may fail midway]; compile(e1) again; clone; search(d1) twice -- for {len(e1s)} x {len(e2s)} expression pairs (core forms and built-ins), '
                                     'documents d1 depth 2 / d2 depth 1 lazily symbolic; through the crate-level compile() (DEFAULT_RUNTIME lazy static, initialised on the path) and Expression::search',
                   'state model': 'statics are per-path persistent cells (initialiser MIR run once), the runtime is shared by all calls of the path, input document cells are frozen after the first search'}
-    run.outside = ['state hidden behind std types the engine does not model (reference counts: Rc::get_mut / make_mut / strong_count; thread_local!): such code makes the run INCONCLUSIVE, not green', 'more than one intervening call', 'thread interleavings (C16, not applicable)']
+    run.outside = ['state hidden behind std types the engine does not model (reference counts: Rc::get_mut / make_mut / strong_count; thread_local!): such code makes the run INCONCLUSIVE, not green', 'more than one intervening call (re-use: two documents)', 'thread interleavings (C16, not applicable)']
     run.assumes = ['safe Rust cannot write through &/Rc without interior mutability; writes into frozen cells by MIR statements are detected, writes by unmodelled std calls are reported as unsupported']
     run_jobs(run, jobs, task, 'mirsym: sequences of public calls on one path (shared statics/runtime), first vs last outcome')
     run.cands = [c for c in run.cands if c['key'].startswith(('c13:', 'c05:'))]
